@@ -269,6 +269,37 @@ def check_foreign_receiver(acc, pendulum, x, b, case):
             acc.mismatch("foreign-receiver", "eq-hash", dict(case, foreign=lbl), [fx == nb, hash(fx) == hash(nb)], [True, True])
 
 
+def check_machine_zone_env(acc, pendulum, spelling, stamps):
+    """Runs in a process STARTED with TZ=<spelling> (a zone name, ':name', or the path of a zone file): the members that
+    answer in the machine's zone agree with the native classes, which follow the C library."""
+    import time as time_
+    for ts in stamps:
+        case = {"kind": "mzenv", "TZ": spelling, "ts": ts}
+        n = dt_.datetime.fromtimestamp(ts)
+        want = [list(obs.fields(n)), time_.localtime(ts).tm_gmtoff]
+        for name, fn in (("DateTime.fromtimestamp(ts)", lambda: pendulum.DateTime.fromtimestamp(ts)),
+                         ("from_timestamp(ts, 'local')", lambda: pendulum.from_timestamp(ts, "local")),
+                         ("Date.fromtimestamp(ts)", lambda: pendulum.Date.fromtimestamp(ts))):
+            acc.c["evaluations"] += 1
+            acc.c["transitions"] += 1
+            acc.c["states"] += 1
+            try:
+                r = fn()
+                got = [list(obs.fields(r)), obs.offset_s(r)] if isinstance(r, dt_.datetime) else [[r.year, r.month, r.day], None]
+            except Exception as e:  # noqa: BLE001
+                got = f"raises {type(e).__name__}"
+            w = want if name != "Date.fromtimestamp(ts)" else [want[0][:3], None]
+            if got != w:
+                acc.mismatch("machine-zone", "from-TZ-environment/" + name, dict(case, member=name), got, w)
+
+
+def _mzenv_fresh(arg):
+    import pendulum
+    acc = core.Acc(ID)
+    check_machine_zone_env(acc, pendulum, arg["TZ"], arg["stamps"])
+    return acc.result()
+
+
 def check_machine_zone(acc, pendulum, tzname, stamps):
     import os
     import time as time_
@@ -504,6 +535,11 @@ def run_shard(shard):
             acc.c["states"] += 1
             for n2 in ns:
                 check_date(acc, pendulum, n1, n2)
+    elif k == "machine-zone-env":
+        from .c01 import TZ_SPELLINGS
+        for spelling, _zone in TZ_SPELLINGS:
+            acc.absorb(worker.fresh_call("c11", "_mzenv_fresh", {"TZ": spelling, "stamps": shard["stamps"]}, {"TZ": spelling}))
+        acc.sample({"machine_zone_from_TZ_spellings": [s_ for s_, _ in TZ_SPELLINGS]})
     elif k == "machine-zone":
         # the members that consult the MACHINE's zone (the harness otherwise pins TZ=UTC): fromtimestamp() without tz,
         # Date.fromtimestamp(), today(), astimezone() without argument, naive timestamp()/utctimetuple()
@@ -521,7 +557,12 @@ def run_shard(shard):
 def replay_case(case, acc):
     import pendulum
     k = case["kind"]
-    if k == "mz":
+    if k == "mzenv":
+        if worker.CTX["config"].get("TZ") != case["TZ"]:
+            acc.absorb(worker.fresh_call("c11", "_mzenv_fresh", {"TZ": case["TZ"], "stamps": [case["ts"]]}, {"TZ": case["TZ"]}))
+        else:
+            check_machine_zone_env(acc, pendulum, case["TZ"], [case["ts"]])
+    elif k == "mz":
         check_machine_zone(acc, pendulum, case["tz"], [case["ts"]])
     elif k == "state":
         check_state(acc, pendulum, case["z"], case["inst"])
@@ -550,6 +591,7 @@ def plan(tier, seed):
               -2208988800 + 3600]
     for tzn in ("America/New_York", "Asia/Tokyo", "Australia/Lord_Howe"):
         shards.append({"kind": "machine-zone", "tz": tzn, "stamps": stamps})
+    shards.append({"kind": "machine-zone-env", "stamps": [s_ for s_ in stamps if s_ == int(s_)]})
     return [({"ext": 1, "tz": "sys"}, shards)]
 
 
